@@ -567,7 +567,9 @@ func (eng *Engine) verifyFunction(tg target) *funcResult {
 			if e.Label != "" {
 				name = "ensures-" + e.Label
 			}
-			if ob := fc.oblige(ret, "ensures", name, g, "postcondition: "+e.Text, token.NoPos, true); ob != nil {
+			if c.AssumeEnsures != "" {
+				fc.externsUsed["assumed postcondition (not proved) of "+eng.funcDisplayName(fn)+": "+e.Text+" — "+c.AssumeEnsures] = true
+			} else if ob := fc.oblige(ret, "ensures", name, g, "postcondition: "+e.Text, token.NoPos, true); ob != nil {
 				ob.Clause = e.Expr
 			}
 			if h, err := env.assumption(e.Expr); err == nil {
@@ -892,6 +894,9 @@ func mergeContract(dst, src *Contract) {
 	dst.Lets = append(dst.Lets, src.Lets...)
 	dst.Inline = dst.Inline || src.Inline
 	dst.Pure = dst.Pure || src.Pure
+	if src.AssumeEnsures != "" {
+		dst.AssumeEnsures = src.AssumeEnsures
+	}
 	if src.AssumeFrame != "" {
 		dst.AssumeFrame = src.AssumeFrame
 	}
